@@ -405,7 +405,9 @@ def monC13 (h : Hist) : Option String :=
     let strict := Spec.strictValidate Spec.rfc parse ri.req.header s x.res.t0
     let ns := [Spec.directiveSeconds Spec.rfc s.header (str% "stale-if-error"), Spec.directiveSeconds Spec.rfc ri.req.header (str% "stale-if-error")].filterMap id
     let st := Spec.staleness Spec.rfc parse s now
-    let simpleReq := !Spec.hasDirective Spec.rfc ri.req.header (str% "max-age") && !Spec.hasDirective Spec.rfc ri.req.header (str% "min-fresh")
+    -- the window is measured from the response's own lifetime whatever max-age the request carries (a
+    -- request max-age forces validation, RFC 9111 §5.2.1.1; it does not make the response "more stale")
+    let simpleReq := !Spec.hasDirective Spec.rfc ri.req.header (str% "min-fresh")
     if errStatusOther && servedStored then
       some s!"exchange {ri.n}: stored response returned for a failure status outside 500/502/503/504"
     else if failed then
